@@ -86,11 +86,14 @@ def tree_hash(root, subdirs=("src", "Cargo.toml", "Cargo.lock")):
 
 
 def verif_hash():
-    """Hash of everything in /verif that influences an encoding (models, harnesses, lib)."""
+    """Hash of everything in /verif that influences an encoding or a verdict: models, harnesses,
+    the obligation table, the SMT generators and the parts of lib/ that build and classify."""
     h = hashlib.sha256()
-    for sd in ("models", "harness", "lib", "smt", "obligations.py"):
+    items = ["models", "harness", "smt", "obligations.py", "lib/scratch.py", "lib/kani.py", "lib/unwind.py", "lib/smt_common.py", "lib/mir.py"]
+    for sd in items:
         p = os.path.join(VERIF, sd)
         if os.path.isfile(p):
+            h.update(sd.encode())
             h.update(open(p, "rb").read())
             continue
         for dp, dn, fn in sorted(os.walk(p)):
